@@ -9,19 +9,19 @@ CLAIMED = {
    text="Thousands of generated histories over the real SDK (1-3 factories, drawn cache policies, virtual clock, out-of-band revocation/rotation, restarts) with every decrypt compared to the recorded payload, and every record re-decrypted by a fresh factory and by a reference decryptor from a store snapshot. Sampled, not exhaustive; sequential histories. A third of the histories run over the real metastore implementations (memory, SQL dialects, DynamoDB v1/v2) on semantic fakes of their databases.",
    note="trusted: overlay rewrite (clock), the reference decryptor's reading of the docs; schedules are covered by C08/C16, not here", ref="3/C01"),
  "C02": dict(level="fault_enumeration", engine="E2-faults", technique="fault-position enumeration over rapid-drawn scenarios, oracle = store snapshot + reference decryptor at the instant Encrypt returns",
-   text="For rapid-drawn scenarios (10 key states x cache configurations) every metastore/KMS call index of the operation receives every applicable fault, and every pair of faults (sampled in quick, complete in thorough); a returned record must be decryptable from the store snapshot alone, failures must be errors, and operations after the faults must succeed.",
+   text="For rapid-drawn scenarios (11 key states, among them a region-suffixed process over a metastore that already holds the partition's un-suffixed keys, x cache configurations) every metastore/KMS call index of the operation receives every applicable fault, and every pair of faults (sampled in quick, complete in thorough); a returned record must be decryptable from the store snapshot alone, failures must be errors, operations after the faults must succeed, and the record objects the caller holds from earlier encrypts must be unchanged.",
    note="faults injected at the Metastore/KMS interfaces of harness fakes; crash = fresh process with snapshot+KMS; trusted: reference decryptor", ref="3/C02"),
  "C03": dict(level="exploration", engine="E1-world", technique="stateful PBT with invariants over the complete AEAD/KMS/store/log history (spies) and multi-pattern leak scanning",
    text="Histories with bursts of hundreds of encrypts per key; every AEAD encryption must be one of three legitimate wrap forms with independently derived key identities, all (key, nonce) pairs distinct, keys from CreateRandom in the same call, and no key bytes or payload markers in any emitted record, row, log line or KMS request. A quarter of the histories run over real metastore implementations; payloads up to 70 KB; the caller's record is scanned after Decrypt.",
    note="uniqueness/provenance/length are checked, not randomness quality; "+W, ref="3/C03"),
  "C04": dict(level="exploration", engine="E1-world", technique="stateful PBT with virtual clock; invariant over (record, time, store) after every encrypt",
-   text="Generated histories with clock steps concentrated on expiry and revoke-check boundaries; every produced record's IK age, the parents of IK rows written, and use of IKs under expired SKs are checked against the policy at the virtual time of the call. A quarter of the histories run over real metastore implementations; compound histories (IK younger than its SK, decrypt of an old generation followed by an encrypt) are generated on purpose.",
+   text="Generated histories with clock steps concentrated on expiry and revoke-check boundaries; every produced record's IK age, the parents of IK rows written, and use of IKs under expired SKs are checked against the policy at the virtual time of the call. A quarter of the histories run over real metastore implementations; compound histories (IK younger than its SK, decrypt of an old generation followed by an encrypt) are generated on purpose. The process runs in a synthetic local time zone whose UTC offset shifts every seven hours, so that lifetimes computed with wall-clock instead of elapsed-time arithmetic show.",
    note=W+"; demanded only when a later creation stamp was available throughout the last interval", ref="3/C04"),
  "C05": dict(level="exploration", engine="E1-world", technique="stateful PBT with virtual clock and out-of-band revocation; invariant over (record, revocation time, store)",
    text="Generated histories that revoke latest/older IKs and SKs under live sessions and other processes' rotations; after the bound (1 interval IK, 2 intervals SK, 0 without caching) a record must name an unrevoked stored IK under an unrevoked stored SK, and records under revoked keys must stay decryptable. A third of the histories run over real metastore implementations; RevokeCheckInterval 0 included; compound histories (revoked SK, rotation, eviction pressure, old record, encrypt).",
    note=W+"; demanded only when a later creation stamp was available throughout the last interval", ref="3/C05"),
  "C08": dict(level="exploration", engine="E3-delay", technique="preemption-bounded schedule sampling: rapid-drawn delay plans over statement-level yield points + systematic single-preemption enumeration, with a use-after-close tracking SecretFactory as oracle",
-   text="Concurrent encrypt/decrypt/session churn on one factory with tiny and asynchronous bounded caches under drawn delay plans (1-3 pauses at (site, k-th visit)); in addition every reachable yield site is taken as the single preemption point for tight configurations. Every operation must succeed with the right bytes and no secret may be read after close.",
+   text="Concurrent encrypt/decrypt/session churn on one factory with tiny and asynchronous bounded caches under drawn delay plans (1-3 pauses at (site, k-th visit)); in addition every reachable yield site is taken as the single preemption point for tight configurations. Every operation must succeed with the right bytes and no secret may be read after close. A third of the configurations keep the latest intermediate key revoked inside its own creation window, so every encrypt reloads and re-caches it while others hold the previous copy.",
    note="schedules are sampled; a violation needing more than 3 coordinated preemptions may be missed", ref="3/C08"),
  "C09": dict(level="exploration", engine="E1-world+E2-faults", technique="stateful PBT with a tracking SecretFactory (resource-accounting invariants) plus fault-position enumeration (store/KMS/AEAD/allocator)",
    text="Every secret the SDK allocates is accounted for: DRK closed before Encrypt returns, nothing live after a no-cache call, per-(process,key) live copies bounded by the caches entitled to hold them and by capacity, zero live / closed once / never read after close once everything is closed; the same under every single injected fault position.",
